@@ -22,12 +22,12 @@ def run(tier, seed):
     core.run_jobs(jobs)
     for j in jobs:
         res.absorb(j)
-    res.rule = ("E1 rapidcheck, N=1024: function in {tGswExternProduct, tGswExternMulToTLwe, tGswFFTExternMulToTLwe (after tGswToFFTConvert), FFT round trip of a TGSW sample, tfhe_blindRotate_FFT, "
+    res.rule = ("E1 rapidcheck, N=1024: function in {tGswExternProduct (a quarter of the calls with the TLWE sample as output object, i.e. in place), tGswExternMulToTLwe, tGswFFTExternMulToTLwe (after tGswToFFTConvert), FFT round trip of a TGSW sample, tfhe_blindRotate_FFT, "
                 "tfhe_blindRotate}; k in {1,2}; Bgbit 1..16, l up to min(32/Bgbit,8); message m in {0, 1, -1, X^j, |m|_1<=8}; TGSW rows either written by the harness through the public structure in exact "
                 "integer arithmetic (noise-free) or encrypted by the library with sigma 2^-15..2^-30 (row errors then measured exactly with the key); TLWE inputs random / all-MAX / all-MIN / alternating / all -1; "
                 "blind rotation on key sets with n in 1..12 and 40 (630 thorough), exponent vectors {random, all 0, all 2N-1, single entry, alternating, zeros interleaved}, random or trivial accumulators. "
                 "Oracle A (key-independent): every coefficient of every component equals the exact sum_p dec_p (*) row_p (reference decomposition, 64-bit schoolbook products) within T = 2 kpl max(1,Bg/2^10)+2 units. "
                 "Oracle B: phase(result) = m (phase(c) - truncation term) + sum_p dec_p (*) rowerr_p within (1+k|s|_1) T. Blind rotation: phase(acc') = X^(sum bara_i s_i) phase(acc) within the analytic tolerance "
                 "written in harness/c09.cpp. Non-trivial = m not in {0,1} or extreme TLWE content or a structured exponent vector; distinct by case hash.")
-    res.assumptions = ["reference decomposition = the digit representation validated by C12", "library-encrypted rows: errors measured exactly, so the noisy case is an identity, not a statistic"]
+    res.assumptions = ["tGswExternProduct is also exercised with result == b (in-place update of an accumulator): the pristine code decomposes b before clearing result and so supports it; the oracle is the same product formula", "reference decomposition = the digit representation validated by C12", "library-encrypted rows: errors measured exactly, so the noisy case is an identity, not a statistic"]
     return core.finish(res)
